@@ -489,4 +489,179 @@ example : tn3Projection ⟨-4/5, 3/5, 0⟩ (cross ⟨3/13, 4/13, 12/13⟩ ⟨-4/
 example : normals1d ⟨0, 0, -1⟩ = (⟨1, 0, 0⟩, ⟨0, -1, 0⟩) ∧ normals1d ⟨3/5, 4/5, 0⟩ = (⟨4/5, -3/5, 0⟩, ⟨0, 0, -1⟩) := by
   decide +kernel
 
+/-! ### deepening: the real-number bridge, Gram–Schmidt with the square roots inside, `force_point_collinearity` -/
+
+/-- the trigonometric step: `sin (arccos c) = √(1 − c²)` and `cos (arccos c) = c` for `|c| ≤ 1` -/
+theorem sin_cos_arccos (c : ℝ) (h1 : -1 ≤ c) (h2 : c ≤ 1) :
+    Real.sin (Real.arccos c) = Real.sqrt (1 - c ^ 2) ∧ Real.cos (Real.arccos c) = c :=
+  ⟨Real.sin_arccos c, Real.cos_arccos h1 h2⟩
+
+/-- `project_plane_matrix` / `project_line_matrix`, non-degenerate branch, with the REAL functions:
+    for rational unit vectors `n`, `r` with `n × r ≠ 0`, `rotation_matrix(arccos (n·r), n × r)` as
+    coded (real square root, arccos, sin, cos) IS the rational Rodrigues matrix of the model. -/
+theorem rotation_matrix_real_eq_rodrigues (n r : V3) (hn : normSq n = 1) (hr : normSq r = 1)
+    (hv : cross n r ≠ V3.zero) :
+    rotationMatrixCoded (Real.arccos ((dot n r : ℚ) : ℝ)) (castV (cross n r)) = castM (rodrigues n r) := by
+  set c : ℝ := ((dot n r : ℚ) : ℝ) with hc
+  have hLq : normSq (cross n r) = 1 - dot n r * dot n r := by rw [lagrange, hn, hr]; ring
+  have hL0 : normSq (cross n r) ≠ 0 := fun h => hv (normSq_eq_zero h)
+  have hLposq : 0 < normSq (cross n r) := lt_of_le_of_ne (normSq_nonneg _) (Ne.symm hL0)
+  have hcast : V3F.normSq (castV (cross n r)) = ((normSq (cross n r) : ℚ) : ℝ) := by
+    simp only [V3F.normSq, V3F.dot, castV, normSq, dot]; push_cast; ring
+  have hL : ((normSq (cross n r) : ℚ) : ℝ) = 1 - c ^ 2 := by
+    rw [hLq, hc]; push_cast; ring
+  have hLpos : (0 : ℝ) < 1 - c ^ 2 := by rw [← hL]; exact_mod_cast hLposq
+  have hc1 : -1 ≤ c := by nlinarith
+  have hc2 : c ≤ 1 := by nlinarith
+  obtain ⟨hsin, hcos⟩ := sin_cos_arccos c hc1 hc2
+  have hl : Real.sqrt (1 - c ^ 2) * Real.sqrt (1 - c ^ 2) = 1 - c ^ 2 := Real.mul_self_sqrt hLpos.le
+  have hl0 : Real.sqrt (1 - c ^ 2) ≠ 0 := (Real.sqrt_pos.mpr hLpos).ne'
+  have h1c : 1 + c ≠ 0 := by
+    intro h
+    have : 1 - c ^ 2 = (1 - c) * (1 + c) := by ring
+    rw [this, h] at hLpos; simp at hLpos
+  have hk : (1 - c) * (1 / Real.sqrt (1 - c ^ 2)) * (1 / Real.sqrt (1 - c ^ 2)) = 1 / (1 + c) := by
+    field_simp
+    nlinarith [hl]
+  have hs1 : Real.sqrt (1 - c ^ 2) * (1 / Real.sqrt (1 - c ^ 2)) = 1 := by field_simp
+  have hq : rotationMatrixCoded (Real.arccos c) (castV (cross n r))
+      = quadF (Real.sin (Real.arccos c)) (1 - Real.cos (Real.arccos c))
+          (V3F.smul (1 / Real.sqrt (V3F.normSq (castV (cross n r)))) (castV (cross n r))) := rfl
+  rw [hq, quadF_scale, hcast, hL, hsin, hcos, hs1, hk]
+  apply M3F.ext' <;>
+    simp only [quadF, M3F.add, M3F.smul, M3F.mul, M3F.id, M3F.skew, castV, castM, rodrigues,
+      M3.add, M3.smul, M3.mul, M3.id, skew, cross, dot, hc] <;>
+    push_cast <;> ring
+
+section gs
+variable {K : Type} [Field K]
+
+/-- Gram–Schmidt as coded in the 3-D branch of `_construct_local_basis`, with the normalisations
+    INSIDE (`‖v‖ = sq (‖v‖²)`): for a normal with `‖n‖² ≠ 0` that is not aligned with the chosen
+    axis `i` (the other two components of `n/‖n‖` do not both vanish: `‖t₁raw‖² ≠ 0`),
+    `n̂ = n/‖n‖`, `t₁ = t₁raw/‖t₁raw‖`, `t₂ = (n̂ × t₁)/‖n̂ × t₁‖` are orthonormal. -/
+theorem gram_schmidt_orthonormal (sq : K → K) (n : V3F K) (i : Fin 3)
+    (hn0 : V3F.normSq n ≠ 0) (hsn : IsSqrtAt sq (V3F.normSq n))
+    (ht0 : V3F.normSq (gsTangent1 i (unitF sq n)) ≠ 0)
+    (hst : IsSqrtAt sq (V3F.normSq (gsTangent1 i (unitF sq n))))
+    (hs1 : IsSqrtAt sq 1) :
+    OrthonormalF (unitF sq (gsTangent1 i (unitF sq n)))
+      (unitF sq (V3F.cross (unitF sq n) (unitF sq (gsTangent1 i (unitF sq n)))))
+      (unitF sq n) := by
+  have hN : V3F.normSq (unitF sq n) = 1 := unitF_normSq sq n hn0 hsn
+  generalize unitF sq n = nh at *
+  have hT : V3F.normSq (unitF sq (gsTangent1 i nh)) = 1 := unitF_normSq sq _ ht0 hst
+  have hTn : V3F.dot (unitF sq (gsTangent1 i nh)) nh = 0 := by
+    unfold unitF; rw [dotF_smul_left, gsTangent1_perp]; ring
+  generalize unitF sq (gsTangent1 i nh) = t1 at *
+  have hC : V3F.normSq (V3F.cross nh t1) = 1 := by
+    rw [lagrangeF, hN, hT, dotF_comm, hTn]; ring
+  have hCn : V3F.dot (V3F.cross nh t1) nh = 0 := by simp only [V3F.dot, V3F.cross]; ring
+  have hCt : V3F.dot (V3F.cross nh t1) t1 = 0 := by simp only [V3F.dot, V3F.cross]; ring
+  have hT2 : V3F.normSq (unitF sq (V3F.cross nh t1)) = 1 :=
+    unitF_normSq sq _ (by rw [hC]; exact one_ne_zero) (by rw [hC]; exact hs1)
+  refine ⟨hT, hT2, hN, ?_, hTn, ?_⟩
+  · unfold unitF; rw [dotF_comm, dotF_smul_left, hCt]; ring
+  · unfold unitF; rw [dotF_smul_left, hCn]; ring
+
+end gs
+
+/-- … in particular over ℝ with the real square root: any normal `n ≠ 0` whose normalisation is not
+    aligned with the chosen axis. -/
+theorem gram_schmidt_orthonormal_real (n : V3F ℝ) (i : Fin 3)
+    (hn0 : V3F.normSq n ≠ 0) (ht0 : V3F.normSq (gsTangent1 i (unitF Real.sqrt n)) ≠ 0) :
+    OrthonormalF (unitF Real.sqrt (gsTangent1 i (unitF Real.sqrt n)))
+      (unitF Real.sqrt (V3F.cross (unitF Real.sqrt n) (unitF Real.sqrt (gsTangent1 i (unitF Real.sqrt n)))))
+      (unitF Real.sqrt n) := by
+  have nn : ∀ v : V3F ℝ, 0 ≤ V3F.normSq v := fun v => by
+    simp only [V3F.normSq, V3F.dot]; nlinarith [mul_self_nonneg v.x, mul_self_nonneg v.y, mul_self_nonneg v.z]
+  exact gram_schmidt_orthonormal Real.sqrt n i hn0 (Real.mul_self_sqrt (nn _)) ht0
+    (Real.mul_self_sqrt (nn _)) (Real.mul_self_sqrt zero_le_one)
+
+/-! ### `force_point_collinearity` -/
+
+/-- every output point lies on the line through the first point and the end point; the first point
+    (`l = 0`) and the end point (`l = 1`) stay; the squared distance to the first point is
+    `l²·|p_end − p₀|²` — i.e. the original one when `l = |p − p₀| / |p_end − p₀|`; the position along
+    the line is monotone in `l` (ordering preserved); points already on the line are not moved. -/
+theorem force_point_collinearity_spec (p0 pe : V3) (l : Rat) :
+    cross (V3.sub (fpcPoint p0 pe l) p0) (V3.sub pe p0) = V3.zero
+      ∧ fpcPoint p0 pe 0 = p0 ∧ fpcPoint p0 pe 1 = pe
+      ∧ normSq (V3.sub (fpcPoint p0 pe l) p0) = l * l * normSq (V3.sub pe p0)
+      ∧ (∀ d : Rat, l * l * normSq (V3.sub pe p0) = d → normSq (V3.sub (fpcPoint p0 pe l) p0) = d)
+      ∧ (∀ l' : Rat, l ≤ l' →
+          dot (V3.sub (fpcPoint p0 pe l) p0) (V3.sub pe p0) ≤ dot (V3.sub (fpcPoint p0 pe l') p0) (V3.sub pe p0))
+      ∧ fpcPoint p0 pe l = V3.add p0 (V3.smul l (V3.sub pe p0)) := by
+  have hd : normSq (V3.sub (fpcPoint p0 pe l) p0) = l * l * normSq (V3.sub pe p0) := by
+    simp only [fpcPoint, normSq, dot, V3.sub, V3.add, V3.smul]; ring
+  refine ⟨?_, ?_, ?_, hd, fun d h => by rw [hd, h], ?_, ?_⟩
+  · apply V3.ext' <;> simp only [fpcPoint, cross, V3.sub, V3.add, V3.smul, V3.zero] <;> ring
+  · apply V3.ext' <;> simp only [fpcPoint, V3.add, V3.smul] <;> ring
+  · apply V3.ext' <;> simp only [fpcPoint, V3.add, V3.smul] <;> ring
+  · intro l' hl
+    have e : ∀ m : Rat, dot (V3.sub (fpcPoint p0 pe m) p0) (V3.sub pe p0) = m * normSq (V3.sub pe p0) := by
+      intro m; simp only [fpcPoint, normSq, dot, V3.sub, V3.add, V3.smul]; ring
+    rw [e, e]
+    exact mul_le_mul_of_nonneg_right hl (normSq_nonneg _)
+  · apply V3.ext' <;> simp only [fpcPoint, V3.add, V3.smul, V3.sub] <;> ring
+
+example : forcePointCollinearity ⟨0, 0, 0⟩ ⟨2, 2, 0⟩ [0, 1/2, 1] = [⟨0, 0, 0⟩, ⟨1, 1, 0⟩, ⟨2, 2, 0⟩] := by
+  decide +kernel
+
+/-- `force_point_collinearity` with the REAL square roots: a point `p` is moved to
+    `p₀ (1 − l) + p_end l`, `l = √|p − p₀|² / √|p_end − p₀|²`; its distance to the first point is
+    kept (so the order of the points by distance from the first point is kept), `l` is monotone in
+    that distance, and a point already on the ray from `p₀` through `p_end` is not moved. -/
+theorem force_point_collinearity_real (p0 pe p : V3F ℝ) (hD : V3F.normSq (V3F.sub pe p0) ≠ 0) :
+    let l := fun q : V3F ℝ => Real.sqrt (V3F.normSq (V3F.sub q p0)) / Real.sqrt (V3F.normSq (V3F.sub pe p0))
+    let f := fun q : V3F ℝ => V3F.add (V3F.smul (1 - l q) p0) (V3F.smul (l q) pe)
+    V3F.normSq (V3F.sub (f p) p0) = V3F.normSq (V3F.sub p p0)
+      ∧ V3F.cross (V3F.sub (f p) p0) (V3F.sub pe p0) = ⟨0, 0, 0⟩
+      ∧ (∀ q : V3F ℝ, V3F.normSq (V3F.sub p p0) ≤ V3F.normSq (V3F.sub q p0) → l p ≤ l q)
+      ∧ (∀ μ : ℝ, 0 ≤ μ → p = V3F.add p0 (V3F.smul μ (V3F.sub pe p0)) → f p = p) := by
+  intro l f
+  have nn : ∀ v : V3F ℝ, 0 ≤ V3F.normSq v := fun v => by
+    simp only [V3F.normSq, V3F.dot]; nlinarith [mul_self_nonneg v.x, mul_self_nonneg v.y, mul_self_nonneg v.z]
+  have hDpos : 0 < V3F.normSq (V3F.sub pe p0) := lt_of_le_of_ne (nn _) (Ne.symm hD)
+  have hsD : Real.sqrt (V3F.normSq (V3F.sub pe p0)) ≠ 0 := (Real.sqrt_pos.mpr hDpos).ne'
+  have hDD := Real.mul_self_sqrt hDpos.le
+  have hll : l p * l p * V3F.normSq (V3F.sub pe p0) = V3F.normSq (V3F.sub p p0) := by
+    have hdd := Real.mul_self_sqrt (nn (V3F.sub p p0))
+    show Real.sqrt _ / Real.sqrt _ * (Real.sqrt _ / Real.sqrt _) * _ = _
+    field_simp
+    nlinarith [hdd, hDD]
+  refine ⟨?_, ?_, ?_, ?_⟩
+  · have e : V3F.normSq (V3F.sub (f p) p0) = l p * l p * V3F.normSq (V3F.sub pe p0) := by
+      simp only [f, V3F.normSq, V3F.dot, V3F.sub, V3F.add, V3F.smul]; ring
+    rw [e, hll]
+  · simp only [f, V3F.cross, V3F.sub, V3F.add, V3F.smul]
+    congr 1 <;> ring
+  · intro q hq
+    exact div_le_div_of_nonneg_right (Real.sqrt_le_sqrt hq) (Real.sqrt_nonneg _)
+  · intro μ hμ hp
+    have hd : V3F.normSq (V3F.sub p p0) = μ * μ * V3F.normSq (V3F.sub pe p0) := by
+      rw [hp]; simp only [V3F.normSq, V3F.dot, V3F.sub, V3F.add, V3F.smul]; ring
+    have hl : l p = μ := by
+      show Real.sqrt _ / Real.sqrt _ = μ
+      rw [hd, show μ * μ * V3F.normSq (V3F.sub pe p0) = (μ * μ) * V3F.normSq (V3F.sub pe p0) by ring,
+        Real.sqrt_mul (mul_self_nonneg μ), Real.sqrt_mul_self hμ]
+      field_simp
+    show V3F.add (V3F.smul (1 - l p) p0) (V3F.smul (l p) pe) = p
+    rw [hl, hp]
+    apply V3F.ext' <;> simp only [V3F.add, V3F.smul, V3F.sub] <;> ring
+
+/-- hypotheses of `gram_schmidt_orthonormal` are satisfiable (ℚ with a partial square root) -/
+example :
+    let sq : ℚ → ℚ := fun x => if x = 169 then 13 else if x = 25 / 169 then 5 / 13 else 1
+    let n : V3F ℚ := ⟨3, 4, 12⟩
+    V3F.normSq n ≠ 0 ∧ IsSqrtAt sq (V3F.normSq n)
+      ∧ V3F.normSq (gsTangent1 2 (unitF sq n)) ≠ 0 ∧ IsSqrtAt sq (V3F.normSq (gsTangent1 2 (unitF sq n)))
+      ∧ IsSqrtAt sq 1 := by
+  intro sq n
+  have h1 : V3F.normSq n = 169 := by norm_num [n, V3F.normSq, V3F.dot]
+  have h2 : V3F.normSq (gsTangent1 2 (unitF sq n)) = 25 / 169 := by
+    norm_num [n, sq, unitF, gsTangent1, V3F.normSq, V3F.dot, V3F.smul]
+  refine ⟨by rw [h1]; norm_num, by rw [h1]; norm_num [IsSqrtAt, sq], by rw [h2]; norm_num,
+    by rw [h2]; norm_num [IsSqrtAt, sq], by norm_num [IsSqrtAt, sq]⟩
+
 end PorepyVerif.C32
